@@ -28,6 +28,13 @@ class Inconclusive(Exception):
     pass
 
 
+def java_opts(extra=""):
+    """JAVA_TOOL_OPTIONS for a TLC run: its temporary directories go under our scratch directory, not /tmp."""
+    jt = os.path.join(scratch(), "jtmp")
+    os.makedirs(jt, exist_ok=True)
+    return ("-Djava.io.tmpdir=%s %s" % (jt, extra)).strip()
+
+
 class ProxyPanic(Exception):
     """The executor process died from a Go panic raised inside the proxy's own code."""
     def __init__(self, what, plan, text):
@@ -160,9 +167,7 @@ def tlc(module, cfg=None, workers=1, env=None, timeout=600, cwd=None, extra=None
     if extra:
         cmd += extra
     cmd.append(module)
-    e = dict(os.environ)
-    if deque:
-        e["JAVA_TOOL_OPTIONS"] = "-Dtlc2.tool.queue.IStateQueue=StateDeque"
+    e = dict(os.environ, JAVA_TOOL_OPTIONS=java_opts("-Dtlc2.tool.queue.IStateQueue=StateDeque" if deque else ""))
     if env:
         e.update(env)
     p = sh(cmd, cwd=wd, env=e, capture_output=True, text=True)
@@ -185,7 +190,7 @@ def validate_traces(trace_files, module="ObsTrace.tla", cfg="ObsTrace.cfg", time
         shutil.copytree(SPEC, wd)
         md = tempfile.mkdtemp(prefix="md-", dir=scratch())
         outp = tf + ".viol.json"
-        e = dict(os.environ, VERIF_TRACE=tf, VERIF_OUT=outp)
+        e = dict(os.environ, VERIF_TRACE=tf, VERIF_OUT=outp, JAVA_TOOL_OPTIONS=java_opts())
         cmd = ["timeout", str(timeout), "tlc", "-workers", "1", "-metadir", md, "-config", cfg, module]
         p = subprocess.Popen(cmd, cwd=wd, env=e, stdout=subprocess.PIPE, stderr=subprocess.STDOUT, text=True)
         jobs.append((p, tf, outp, wd, md))
@@ -289,7 +294,7 @@ def cfg_with(wd, base_cfg, name, invariants=None, constants=None, drop_symmetry=
 def start_tlc(wd, module, cfg, workers=1, timeout=600, extra=None):
     md = tempfile.mkdtemp(prefix="md-", dir=scratch())
     cmd = ["timeout", str(timeout), "tlc", "-workers", str(workers), "-metadir", md, "-config", cfg] + (extra or []) + [module]
-    p = subprocess.Popen(cmd, cwd=wd, stdout=subprocess.PIPE, stderr=subprocess.STDOUT, text=True)
+    p = subprocess.Popen(cmd, cwd=wd, env=dict(os.environ, JAVA_TOOL_OPTIONS=java_opts()), stdout=subprocess.PIPE, stderr=subprocess.STDOUT, text=True)
     p._md = md
     return p
 
